@@ -61,6 +61,12 @@ TABLE = {
         note="Trusted: astdump.dump (walks __slots__, including node-valued attributes and Coord fields).",
         ref="DESIGN.md section 4, C15",
     ),
+    "C19": dict(
+        technique="exhaustive sweep over the shipped header files x dialects x argument forms through parse_file(use_cpp=True), differential oracle against a by-hand cpp + CParser pipeline, generated declarations using every typedef name; Hypothesis-chosen header subsets and orders",
+        text="All header files found under utils/fake_libc_include at run time x 4 dialects (list form) and the string form (include directory reached through a scratch symlink whose name contains a blank and '=') are preprocessed and parsed; results are compared with the by-hand pipeline (coordinates included, also for use_cpp=False) and every typedef name is used in generated declarations. The single-header space is enumerated completely; subsets and orders are sampled.",
+        note="Trusted: the system cpp; in the quick tier the deep comparisons run for -std=c11 and the string form only.",
+        ref="DESIGN.md section 4, C19",
+    ),
 }
 
 NOT_YET = "check not built yet in this session (work in progress; see DESIGN.md section 9 for the order of work)"
